@@ -24,6 +24,8 @@ async def main():
         for i, (a, b) in enumerate(pairs):
             if a == b:
                 continue
+            if req.get('skip_known') and a[0] + a[1] == b[0] + b[1]:
+                continue        # witness class of the recorded known finding (known_findings.json: C17.key.injective)
             d = os.path.join(tmp, str(i))
             os.makedirs(d)
             cache = TransferShelveCache(d)
